@@ -11,7 +11,9 @@ CLAIMS = {
             'agreement, RF33 indirect-jump CFG edges, RF34 narrowing in store-to-load forwarding, RF23/25/26/38/41 folding tables, RF32 side-effect '
             'opcode protection, RF36 liveness-scan agreement, RF39/RF40 address-scale and flag discipline, RF43 spill-slot reuse, RF44 lost-copy guard, '
             'RF48 branch reversal, RF49 overlap predicate, RF52 address-taken labels survive jump optimisation, RF54 addr elimination only for full-width stores, '
-            'RF55 kill set of memory availability, RF62 combiner memory staleness, RF63 one-step builtin conversions, RF64 range predicates on un-narrowed values',
+            'RF55 kill set of memory availability, RF62 combiner memory staleness, RF63 one-step builtin conversions, RF64 range predicates on un-narrowed values, '
+            'RF30 no cloning of switch/jmpi blocks, RF68 memory-clobber opcodes in GVN availability, RF69 alloca escape through call arguments, RF70 loop-phi guard of ssa_combine, '
+            'RF18b rewrite classifiers, RF32 incl. the combiner move, RF67 null-then-dereference',
             'Decides named structural clauses that are necessary conditions of generator/interpreter equivalence: the GVN constant '
             'folder applies per opcode the same C operator on the same operand width/signedness as the interpreter; every opcode that '
             'reaches instruction selection has a pattern; x86 encodings carry the width, signedness and condition code the opcode name '
@@ -28,7 +30,7 @@ CLAIMS = {
             'code-write protocol (RF4d), label-operand position agreement between duplicator, simplifier and interpreter (RF7g), '
             'interface switch protocol: single writer of the public address and thunk redirection on every setter path (RF31), '
             'indirect-jump CFG edges (RF33), origin of addresses stored into lref data (RF42), address-taken labels (RF52/RF53), API view of a callee at link time (RF56), '
-            'direct-call offset range test (RF64)',
+            'direct-call offset range test (RF64), direct-call patching needs machine code (RF77)',
             'Decides narrow structural necessary conditions of interface independence: the glue that switches a function from stub to '
             'generated code preserves every argument register and the stack, both thunk patterns have one size so retargeting never '
             'overwrites a neighbour, redirection writes go through the protected code-write path, label targets are rewired at the '
@@ -38,7 +40,8 @@ CLAIMS = {
     'C04': ('RF18 flag-producer preservation, RF7e extension-map agreement, RF7g label-operand positions, RF7b call-family coverage, '
             'RF28 alloca consolidation by path-wise linear forms, RF29 simplified memory operands, RF16j label forwarding-pointer scrub, RF38/41/48 '
             'folding and reversal tables, RF45 fresh merge registers, RF46 top alloca precedes calls, RF50 fresh inline registers, RF51 alignment inside the consolidated alloca area, '
-            'RF56 inliner reads the API view of the callee',
+            'RF56 inliner reads the API view of the callee, RF71 scans that run off the list, RF72 jump over code after a replaced ret, RF73 block argument copies released, '
+            'RF83 result extension in front of the common ret',
             'Decides that the link-time shortcut set is disjoint from overflow-flag producers, that result/argument extension maps agree '
             'with the target\'s, that label bookkeeping covers every label-carrying opcode, that the inliner\'s consolidated alloca size '
             'covers every offset it hands out, that memory operands it builds are base-only, and that label forwarding pointers used '
@@ -47,7 +50,8 @@ CLAIMS = {
     'C05': ('ABI constant agreement (RF10), block class mapping (RF10b), argument-register counter discipline (RF10c/d), long double '
             'stack-slot alignment (RF10e), trampoline cache-key completeness and separation (RF12/RF12b), container growth not skipped '
             '(RF3b), %al count (RF10h), block stack placement (RF10i), result extension after the result move (RF10j), prologue frame residues mod 16 (RF65), '
-            'per-call trampoline buffer (RF47), narrowing maps (RF7f), extension map (RF7e)',
+            'per-call trampoline buffer (RF47), narrowing maps (RF7f), extension map (RF7e), result moves anchored at the call (RF84), zero-size block copy template (RF74), '
+            'sp-dependent instructions not moved by the combiner (RF32)',
             'Decides that every copy of the SysV argument/return register tables and counts in the FFI trampoline generator, the code '
             'generator and c2mir agree with the psABI and with each other; that block classes map to the register classes the psABI '
             'gives them; that register counters advance exactly for arguments passed in registers; that long double stack slots are '
@@ -59,12 +63,13 @@ CLAIMS = {
             'Decides table/constant agreement with the psABI, template symmetry, and that no pass can create a second return that the '
             'single epilogue would miss; does not decide register allocation.', '3 C06'),
     'C10': ('tagged-union discipline in the text writer (RF6), writer/scanner vocabulary agreement (RF7c), scanner input function '
-            '(RF22, RF22b), label-table scope (RF15), FP print precision and lossy FP-to-integer printing (RF37), trailing labels (RF7k)',
+            '(RF22, RF22b), label-table scope (RF15), FP print precision and lossy FP-to-integer printing (RF37), trailing labels (RF7k), every string byte printed (RF80)',
             'Decides that the textual writer reads only the active union member on every path and terminates each item kind, and that '
             'every keyword, type name, data element type the writer can print is accepted by the scanner. Numeric round trip of values '
             'is not decided.', '3 C10'),
     'C11': ('binary writer/reader vocabulary agreement (RF7d), label provenance (RF15), padding of type-punned temporaries (RF14), '
-            'tagged-union discipline (RF6), byte callbacks as the only sink/source (RF7j), encoder counter discipline (RF13c)',
+            'tagged-union discipline (RF6), byte callbacks as the only sink/source (RF7j), encoder counter discipline (RF13c), token payload read once (RF75), '
+            'memory operand fields by abstract execution of the writer (RF82)',
             'Decides vocabulary agreement between write_* and read_*, that lref labels come from the reader\'s label table, and that no '
             'indeterminate byte reaches the output stream. Value encodings are not decided.', '3 C11'),
     'C12': ('bounded-write guard coverage in the decoder (RF13, including copy helpers and the written-prefix clause for back references), no wrap of the 32-bit '
@@ -74,32 +79,33 @@ CLAIMS = {
             'bound check on the same index expression that covers the whole extent touched, also through copy helpers. Losslessness '
             'and detection of every corruption are not decided.', '3 C12'),
     'C13': ('must-pass-through rules on setup_global / MIR_link / MIR_load_module (RF16c-e), interned-key discipline (RF24), add_item as a '
-            'transition system over declaration orders (RF16l), RF6 on add_item',
+            'transition system over declaration orders (RF16l), RF6 on add_item, exported section registered through its head item (RF79)',
             'Decides necessary structural conditions: the environment entry is overwritten on every load; every import/export/forward '
             'is bound on every non-error path from the module item table; the redefinition error is guarded by exactly the reference '
             'guard set; table probes use interned names. History semantics are not decided.', '3 C13'),
     'C14': ('size-pass/placement-pass agreement and initialisation obligation in load_bss_data_section (RF16f), provenance of '
-            'resolved addresses in MIR_link (RF16d), store-width agreement (RF7f), contiguity clause (RF16f), lref detection over all items (RF53)',
+            'resolved addresses in MIR_link (RF16d), store-width agreement (RF7f), contiguity clause (RF16f), lref detection over all items (RF53), lref list rebuilt on reload (RF76), section published at its head (RF79)',
             'Decides that both passes use the same kind predicates and per-kind size expressions, that bss is zeroed on every load, and '
             'that forward/export addresses come from the definition found in the module item table. Byte contents are not decided.',
             '3 C14'),
     'C15': ('operand-mode table vs specification (RF17), call-family coverage (RF7b) and operand classification (RF19c), memory-operand '
-            'decision tables (RF19, RF19e), register-required operands (RF19d), register look-up rule (RF16h)',
+            'decision tables (RF19, RF19e), register-required operands (RF19d), register look-up rule (RF16h), output-capable operand modes (RF81), '
+            'null-then-dereference in the validator (RF67)',
             'Decides the static table that the run-time validator consults, row by row against the documented grammar, and that error '
             'branches call the error function with a specific code.', '3 C15'),
     'C16': ('duplicate/restore protocol on every generation path (RF16a/b/i), scratch use of insn data scrubbed (RF16j), no instruction write '
             'before the working copy exists (RF16k), label-operand '
             'positions (RF7g), lref cell written by one engine (RF42b, known finding), API view of a callee (RF56), generator stores only engine-private '
-            'descriptor fields (RF66)',
+            'descriptor fields (RF66), direct-call patching needs machine code (RF77)',
             'Decides the must-pass-through protocol of generate_func_code, sibling agreement of saved/restored fields, and that every '
             'forwarding pointer parked in the original labels while instructions are copied is reset on every path.', '3 C16'),
     'C17': ('who-may-call allocator confinement (RF1), init/finish create-destroy pairing (RF2/RF27), single owner of item data (RF2b), realloc old-size contract (RF3), '
-            'code-memory write protocol (RF4)',
+            'code-memory write protocol (RF4), ownership of locally created containers and objects on every path (RF78, RF78b)',
             'Decides for every function of the three library units that no C-library allocator is referenced outside the default '
             'callbacks, that every MIR_realloc passes the container\'s true previous capacity, that every container created at init is '
             'destroyed at finish, and that code memory is written only between protect(write) and protect(exec). Heap ownership that '
             'moves through data structures at run time (double free, use after free) is not decided.', '3 C17'),
-    'C18': ('process-wide mutable state (RF5), non-reentrant libc who-may-call, protect window within the written pages (RF4)',
+    'C18': ('process-wide mutable state in mir, gen, c2mir and mir2c (RF5), non-reentrant libc who-may-call, protect window within the written pages (RF4)',
             'Decides the property\'s second sentence: no variable with static storage in any library unit is written or escapes into a '
             'pointer through which its type is written. Schedules are not explored.', '3 C18'),
     'C20': ('opcode template signature agreement under every operand kind (RF8), opcode coverage (RF7h), operand union discipline (RF6), '
